@@ -18,7 +18,7 @@ RULE = ('case = (container tree over list/tuple/set/frozenset/dict with lengths 
         'identical to N = 10^6. non-trivial = a container at nesting level >= 1 was truncated, or N is None; distinct '
         'by case hash')
 ASSUMPTIONS = ['iteration order of the live object defines "first N elements" (sets: the order this interpreter iterates them)',
-               'sort_dict_keys is False in this check']
+               'with sort_dict_keys on, a truncated dict shows the first N keys in ascending order (judged only for pairwise comparable keys); the option does not concern sets']
 BUDGET = {'quick': {'random': 8000, 'shards': 16}, 'thorough': {'random': 300000, 'shards': 16}}
 
 NOTICE = re.compile(r'\.\.\.and (\d+) more elements')
@@ -75,6 +75,11 @@ def fixed_cases():
     yield {'v': ['list', [['int', 1], ['int', 2], ['dict', [[['int', 1], ['int', 2]]]]]], 'n': None, 'width': 79, 'indent': 4}   # D8
     yield {'v': ['dict', [[['tuple', [['int', 1], ['int', 2], ['int', 3]]], ['list', [['int', 1], ['int', 2], ['int', 3]]]]]],
            'n': 2, 'width': 20, 'indent': 2}
+    big_set = ['set', [['int', 1000], ['int', 1], ['int', 500], ['int', 2], ['int', 64], ['int', 33]]]
+    for n in (1, 2, 3):
+        for kind in ('set', 'fset'):
+            yield {'v': [kind, big_set[1]], 'n': n, 'width': 40, 'indent': 4, 'sort': True}
+        yield {'v': ['list', [big_set, ['dict', [[['int', 3], big_set], [['int', 1], ['int', 0]], [['int', 2], ['int', 0]]]]]], 'n': n, 'width': 40, 'indent': 4, 'sort': True}
     inner = ['list', [['int', 1], ['int', 2], ['int', 3], ['int', 4]]]
     for n in (1, 3, None):
         yield {'v': ['call', 'box', [inner, ['dict', [[['int', 1], inner], [['int', 2], ['int', 0]]]]], [['kw', ['tuple', [inner, ['int', 5], ['int', 6]]]]]],
@@ -111,35 +116,45 @@ def strategy(tier):
         'v': tree,
         'n': st.one_of(st.integers(1, 7), st.integers(1, 3), st.none(), st.just(10 ** 6)),
         'width': st.one_of(st.integers(1, 79), st.sampled_from([1, 10, 79])),
-        'indent': st.sampled_from([1, 2, 4, 8]),
+        'indent': st.sampled_from([1, 2, 4, 8]), 'sort': st.sampled_from([False, False, True]),
     })
 
 
-def truncate(v, N, counts, level=0, trunc_levels=None):
-    """reference truncation; appends len-N for every reached container longer than N"""
+class _Unordered(Exception):
+    pass
+
+
+def truncate(v, N, counts, level=0, trunc_levels=None, sort=False):
+    """reference truncation; appends len-N for every reached container longer than N.
+    sort: sort_dict_keys is on - a dict shows its first N keys in ascending order (only judged when the keys are
+    pairwise comparable); sets, lists, tuples are unaffected by that option (iteration order)."""
     from .. import vtypes
     t = type(v)
     if isinstance(v, vtypes.Box):
         # a call-style object is not a container: its arguments are all shown, each truncated on its own
-        return t(*[truncate(a, N, counts, level + 1, trunc_levels) for a in v.args],
-                 **{k: truncate(a, N, counts, level + 1, trunc_levels) for k, a in v.kwargs.items()})
+        return t(*[truncate(a, N, counts, level + 1, trunc_levels, sort) for a in v.args],
+                 **{k: truncate(a, N, counts, level + 1, trunc_levels, sort) for k, a in v.kwargs.items()})
     if t in (list, tuple, set, frozenset):
         items = list(v)
         if len(items) > N:
             counts.append(len(items) - N)
             if trunc_levels is not None:
                 trunc_levels.append(level)
-        kept = [truncate(x, N, counts, level + 1, trunc_levels) for x in items[:N]]
+        kept = [truncate(x, N, counts, level + 1, trunc_levels, sort) for x in items[:N]]
         return t(kept)
     if t is dict:
         keys = list(v.keys())
+        if sort == 'sorted' and len(keys) > 1:
+            if not eqv.mutually_comparable(keys):
+                raise _Unordered()
+            keys = sorted(keys)
         if len(keys) > N:
             counts.append(len(keys) - N)
             if trunc_levels is not None:
                 trunc_levels.append(level)
         out = {}
         for k in keys[:N]:
-            out[truncate(k, N, counts, level + 1, trunc_levels)] = truncate(v[k], N, counts, level + 1, trunc_levels)
+            out[truncate(k, N, counts, level + 1, trunc_levels, sort)] = truncate(v[k], N, counts, level + 1, trunc_levels, sort)
         return out
     return v
 
@@ -170,7 +185,8 @@ def oracle(case):
     else:
         v = values.build(case['v'])
     n = case['n']
-    cfg = {'width': case['width'], 'ribbon_width': case['width'], 'indent': case['indent'], 'sort_dict_keys': False}
+    sort = bool(case.get('sort'))
+    cfg = {'width': case['width'], 'ribbon_width': case['width'], 'indent': case['indent'], 'sort_dict_keys': sort}
     if n == 'default':
         N = 1000
     elif n is None:
@@ -185,14 +201,22 @@ def oracle(case):
     if p.fallback_warnings() or (n is None and p.warnings):
         return core.viol('warning', p.warnings[0][:400])
     counts, levels = [], []
-    expected = truncate(v, N, counts, 0, levels)
+    # With sort_dict_keys on, "the first N elements" of a dict can be read as the first N keys in ascending order (what
+    # the code does) or the first N inserted keys shown in ascending order; the statement does not choose - both are accepted.
+    alternatives = []
+    try:
+        expected = truncate(v, N, counts, 0, levels, 'sorted' if sort else False)
+    except _Unordered:
+        return core.skip('sorted-keys-not-comparable')
+    if sort:
+        alternatives.append(truncate(v, N, [], 0, [], 'insertion'))
     from .. import vtypes
     from .c17 import deep_same
     try:
         back = values.evaluate(p.text, vtypes.env())
     except Exception as e:
         return core.viol('not-evaluable', '%r\n%s' % (e, p.text[:500]))
-    if not deep_same(expected, back, True):
+    if not deep_same(expected, back, not sort) and not any(deep_same(alt, back, False) for alt in alternatives):
         return core.viol('truncated-value-differs', 'N=%r expected %r\ngot %r' % (n, expected, back) if len(p.text) < 600 else 'N=%r long value differs' % (n,))
     try:
         got, nwords = notices(p.text)
